@@ -2,7 +2,7 @@
    matrix theorems: match / destructuring let exhaustiveness and if-let irrefutability. *)
 From Coq Require Import List Arith Bool Lia.
 Import ListNotations.
-From SV Require Import C07.Pat C07.PatFuel C07.PatCex.
+From SV Require Import C07.Pat C07.PatFuel C07.PatCex C07.PatCexFuel C07.PatCexComplete C07.PatInhabited C07.Corr.
 
 Section Entry.
   Variable ty : Type.
@@ -82,3 +82,189 @@ Section Entry.
     - cbn; auto.
   Qed.
 End Entry.
+
+(* ------------------------------------------------------------------ *)
+(* The counterexample entry point (incomplete_counterexample: one column): completeness, explicit fuel,
+   and what survives without the inhabitation hypothesis. *)
+Section EntryCex.
+  Variable ty : Type.
+  Variable shape : ty -> tshape ty.
+  Variable variants_of : nat -> list (nat * nat).
+  Hypothesis H_variants : forall t cls vs, shape t = SEnum ty cls vs ->
+    variants_of cls = map (fun '(v, tys) => (v, length tys)) vs.
+
+  Lemma covers_all_iff ps t :
+    (forall vs, vals_ok ty shape [t] vs -> any_row (column ps) vs = true) <->
+    (forall v, val_ok ty shape v t -> covers ps v = true).
+  Proof.
+    split.
+    - intros H v Hv. rewrite <- any_row_column. apply H. cbn; auto.
+    - intros H vs Hvs. destruct vs as [|v [|v' vs]]; cbn in Hvs; try tauto.
+      rewrite any_row_column. apply H. tauto.
+  Qed.
+
+  (* the fuel bound, entry point form: any two sufficient fuels give the same, defined, answer *)
+  Theorem match_cex_fuel_sufficient : forall f1 f2 ps t,
+    Forall (fun p => pat_ok ty shape p t) ps ->
+    cex_fuel (column ps) 1 <= f1 -> cex_fuel (column ps) 1 <= f2 ->
+    cex variants_of f1 (column ps) 1 = cex variants_of f2 (column ps) 1 /\
+    cex variants_of f1 (column ps) 1 <> None.
+  Proof.
+    intros f1 f2 ps t Hok H1 H2.
+    exact (cex_fuel_stable ty shape variants_of (column ps) [t] f1 f2 (column_ok ty shape ps t Hok) H1 H2).
+  Qed.
+
+  (* acceptance is sound for EVERY type environment (no inhabitation hypothesis) *)
+  Theorem match_accept_sound_any : forall fuel ps t,
+    cex variants_of fuel (column ps) 1 = Some None ->
+    Forall (fun p => pat_ok ty shape p t) ps ->
+    forall v, val_ok ty shape v t -> covers ps v = true.
+  Proof.
+    intros fuel ps t Hc Hok. apply covers_all_iff.
+    exact (cex_none_exhaustive ty shape variants_of H_variants fuel (column ps) [t] Hc (column_ok ty shape ps t Hok)).
+  Qed.
+
+  Hypothesis H_inhabited : forall t, exists v, val_ok ty shape v t.
+
+  (* completeness + soundness of the reported counterexample, with the explicit fuel *)
+  Theorem match_cex_complete : forall fuel ps t,
+    Forall (fun p => pat_ok ty shape p t) ps -> cex_fuel (column ps) 1 <= fuel ->
+    exists r, cex variants_of fuel (column ps) 1 = Some r /\
+      (r = None <-> useful variants_of fuel (column ps) [PWild] = Some false) /\
+      (r = None <-> forall v, val_ok ty shape v t -> covers ps v = true) /\
+      (forall pv, r = Some pv -> exists c, pv = [c] /\ pat_ok ty shape c t /\
+         (exists v, val_ok ty shape v t /\ matches c v = true) /\
+         (forall v, val_ok ty shape v t -> matches c v = true -> covers ps v = false)).
+  Proof.
+    intros fuel ps t Hok Hle.
+    destruct (cex_complete ty shape variants_of H_variants H_inhabited fuel (column ps) [t]
+                (column_ok ty shape ps t Hok) Hle) as [r [Hr [Hu [Hex Hpv]]]].
+    exists r. split; [exact Hr|]. split; [exact Hu|]. split; [rewrite Hex; apply covers_all_iff|].
+    intros pv ->. destruct (Hpv pv eq_refl) as [Hty [[vs [Hvs Hm]] Hval]].
+    destruct pv as [|c [|c' pv]]; cbn in Hty; try tauto. destruct Hty as [Hc _].
+    exists c. split; [reflexivity|]. split; [exact Hc|]. split.
+    - destruct vs as [|v [|v' vs]]; cbn in Hvs; try tauto. exists v. split; [tauto|].
+      cbn in Hm. now rewrite andb_true_r in Hm.
+    - intros v Hv Hmv. rewrite <- any_row_column. apply Hval; [cbn; auto|]. cbn. now rewrite Hmv.
+  Qed.
+End EntryCex.
+
+(* ------------------------------------------------------------------ *)
+(* The functions the correspondence check evaluates (Corr.predict, Corr.predict_by_useful, Corr.hyps_ok) *)
+
+Lemma lookup_sig_eq v vs : lookup_sig v vs = lookup v vs.
+Proof. induction vs as [|[v' tys] vs IH]; cbn; auto. now rewrite IH. Qed.
+
+Lemma ctor_sigb_eq e t c : ctor_sigb e t c = ctor_sig nat (shape_of e) t c.
+Proof.
+  unfold ctor_sigb, ctor_sig. destruct (shape_of e t); auto.
+  destruct c as [[cls' v]|]; auto. destruct (Nat.eqb cls cls'); auto. apply lookup_sig_eq.
+Qed.
+
+Lemma pat_okb_sound e p : forall t, pat_okb e p t = true -> pat_ok nat (shape_of e) p t.
+Proof.
+  induction p as [|c ps IH|ps IH] using pat_ind'; intros t H; cbn [pat_okb pat_ok] in *; auto.
+  - rewrite ctor_sigb_eq in H. destruct (ctor_sig nat (shape_of e) t c) as [tys|]; [|discriminate].
+    exists tys. split; auto. revert tys H.
+    induction ps as [|p ps IHps]; intros [|t' tys] H; cbn; try discriminate; auto.
+    inversion IH as [|? ? Hp Hps]; subst. apply andb_prop in H. destruct H as [H1 H2]. split; auto.
+  - apply allP_Forall. rewrite Forall_forall in *. intros p Hin.
+    rewrite forallb_forall in H. auto.
+Qed.
+
+Lemma list_eqb_pair_eq a : forall b, list_eqb pair_eqb a b = true -> a = b.
+Proof.
+  induction a as [|[x1 x2] a IH]; intros [|[y1 y2] b] H; cbn in H; try discriminate; auto.
+  apply andb_prop in H. destruct H as [H1 H2]. unfold pair_eqb in H1. cbn in H1.
+  apply andb_prop in H1. destruct H1 as [E1 E2]. apply Nat.eqb_eq in E1, E2. subst.
+  f_equal. auto.
+Qed.
+
+Lemma variants_okb_sound e : variants_okb e = true ->
+  forall t cls vs, shape_of e t = SEnum nat cls vs ->
+    variants_in e cls = map (fun '(v, tys) => (v, length tys)) vs.
+Proof.
+  intros H t cls vs Hs. unfold variants_okb in H. rewrite forallb_forall in H.
+  unfold shape_of in Hs. destruct (nth_in_or_default t e (SOpaque nat)) as [Hin|Hd]; [|congruence].
+  rewrite Hs in Hin. specialize (H _ Hin). cbn in H. now apply list_eqb_pair_eq.
+Qed.
+
+Lemma fuel_for_enough P : cex_fuel P 1 <= fuel_for P [PWild].
+Proof. unfold cex_fuel, fuel_for, Phi. cbn [Ssum sz]. lia. Qed.
+
+(* the fuel is kept abstract in the two auxiliary lemmas so that no proof term ever computes on it *)
+Lemma verdict_of_cex_agree vo f1 f2 P r u :
+  cex vo f1 P 1 = Some r -> useful vo f2 P [PWild] = Some u ->
+  (match r with Some _ => true | None => false end) = u.
+Proof.
+  intros E Hu. pose proof (cex_useful_agree vo f1 f2 P 1 r u E Hu) as [A1 A2].
+  destruct r, u; auto; [specialize (A2 eq_refl)|specialize (A1 eq_refl)]; discriminate.
+Qed.
+
+Definition verdict_of (r : option (option row)) : option bool :=
+  match r with Some (Some _) => Some true | Some None => Some false | None => None end.
+
+Lemma predict_unfold c :
+  predict c = match c_kind c with
+              | KIfLet => match predict_by_useful c with Some b => Some (negb b) | None => None end
+              | _ => verdict_of (cex (variants_in (c_env c)) (fuel_for (column (c_pats c)) [PWild]) (column (c_pats c)) 1)
+              end.
+Proof. unfold predict, predict_by_useful, verdict_of, column. destruct (c_kind c); reflexivity. Qed.
+
+Lemma predict_by_useful_unfold c :
+  predict_by_useful c = useful (variants_in (c_env c)) (fuel_for (column (c_pats c)) [PWild]) (column (c_pats c)) [PWild].
+Proof. reflexivity. Qed.
+
+(* inside the model, the two verdict functions of the correspondence check can never disagree (verdict 4 of
+   Corr.verdict is impossible) - no hypothesis at all *)
+Theorem predict_agree : forall c b u, c_kind c <> KIfLet ->
+  predict c = Some b -> predict_by_useful c = Some u -> u = b.
+Proof.
+  intros c b u Hk Hp Hu. rewrite predict_unfold in Hp. rewrite predict_by_useful_unfold in Hu.
+  revert Hp Hu. generalize (fuel_for (column (c_pats c)) [PWild]) as f. generalize (column (c_pats c)) as P.
+  intros P f Hp Hu.
+  assert (Hc : verdict_of (cex (variants_in (c_env c)) f P 1) = Some b)
+    by (destruct (c_kind c); [exact Hp|exact Hp|congruence]).
+  unfold verdict_of in Hc.
+  destruct (cex (variants_in (c_env c)) f P 1) as [r|] eqn:E; [|discriminate].
+  rewrite <- (verdict_of_cex_agree _ _ _ _ _ _ E Hu).
+  destruct r; inversion Hc; reflexivity.
+Qed.
+
+Lemma predict_match_exact_aux : forall e t ps f, variants_okb e = true ->
+  Forall (fun p => pat_ok nat (shape_of e) p t) ps ->
+  (forall t, exists v, val_ok nat (shape_of e) v t) ->
+  cex_fuel (column ps) 1 <= f ->
+  exists b, verdict_of (cex (variants_in e) f (column ps) 1) = Some b /\
+    useful (variants_in e) f (column ps) [PWild] = Some b /\
+    (b = false <-> forall v, val_ok nat (shape_of e) v t -> covers ps v = true).
+Proof.
+  intros e t ps f Hv Hok Hinh Hle.
+  destruct (match_cex_complete nat (shape_of e) (variants_in e) (variants_okb_sound _ Hv) Hinh f ps t Hok Hle)
+    as [r [Hr [Hu [Hex _]]]].
+  destruct (useful (variants_in e) f (column ps) [PWild]) as [u|] eqn:Eu.
+  - pose proof (verdict_of_cex_agree _ _ _ _ _ _ Hr Eu) as A.
+    exists u. rewrite Hr. split; [destruct r; cbn in *; congruence|]. split; [reflexivity|].
+    rewrite <- Hex. subst u. destruct r; split; intros; try discriminate; auto.
+  - exfalso. eapply (fuel_sufficient nat (shape_of e) (variants_in e) f (column ps) [PWild] [t]);
+      [apply (column_ok nat (shape_of e) _ _ Hok)|cbn; auto| |exact Eu].
+    rewrite cex_fuel_Phi in Hle. cbn [repeat] in Hle. lia.
+Qed.
+
+(* for match / let cases that pass the boolean hypothesis check, over inhabited types: the model always answers at
+   the fuel the check uses (verdict 2 is impossible), both verdict functions give the same answer, and the answer
+   is "flagged" iff some value of the scrutinee type is matched by no arm *)
+Theorem predict_match_exact : forall c, c_kind c <> KIfLet -> hyps_ok c = true ->
+  (forall t, exists v, val_ok nat (shape_of (c_env c)) v t) ->
+  exists b, predict c = Some b /\ predict_by_useful c = Some b /\
+    (b = false <-> forall v, val_ok nat (shape_of (c_env c)) v (c_ty c) -> covers (c_pats c) v = true).
+Proof.
+  intros c Hk Hh Hinh. unfold hyps_ok in Hh. apply andb_prop in Hh. destruct Hh as [Hv Hp].
+  assert (Hok : Forall (fun p => pat_ok nat (shape_of (c_env c)) p (c_ty c)) (c_pats c)).
+  { apply Forall_forall. intros p Hin. rewrite forallb_forall in Hp. apply pat_okb_sound. auto. }
+  destruct (predict_match_exact_aux (c_env c) (c_ty c) (c_pats c) _ Hv Hok Hinh (fuel_for_enough (column (c_pats c))))
+    as [b [H1 [H2 H3]]].
+  exists b. rewrite predict_unfold, predict_by_useful_unfold.
+  split; [|split; [exact H2|exact H3]].
+  destruct (c_kind c); [exact H1|exact H1|congruence].
+Qed.
